@@ -1,6 +1,6 @@
 (* C08 - Position hash depends only on board, side to move, step and push/pull status. *)
 From Coq Require Import NArith List Bool.
-From Arimaa Require Import Types U64 Board Zobrist Engine Cells XorFold Hash Invariant HashInv Setup Reach.
+From Arimaa Require Import Types U64 Board Zobrist Engine Cells XorFold Hash Invariant HashInv Setup Reach RepInv.
 Open Scope N_scope.
 
 (* the from-scratch hash of a well-formed board is a function of its 64 cells, the side and the step:
@@ -50,3 +50,10 @@ Theorem C08_eq : forall s pp s' pp', HashInv s pp -> HashInv s' pp' ->
   state_eqb s s' = true /\ hash s = hash s'.
 Proof. exact same_position_equal. Qed.
 Print Assumptions C08_eq.
+
+(* the start-of-turn hashes recorded for repetition detection are the from-scratch hashes of the exact turn-start
+   positions since the last capture (ghost G), and the turn-start hash is that of the turn's starting board b0 *)
+Theorem C08_history : forall s G b0 pp, ReachG s G b0 -> ph s = PlayPhase pp ->
+  hist pp = map hpos G /\ init_hash pp = z_from_piece_board b0 (side s) 0.
+Proof. exact history_hashes. Qed.
+Print Assumptions C08_history.
